@@ -29,13 +29,14 @@ from .c03 import gen_cdda_model
 
 PROP = "C11"
 LEVEL = "exploration"
-RUNS = {"quick": 700, "thorough": 40000}
+RUNS = {"quick": 1150, "thorough": 60000}
 TIME_CAP = {"quick": 400, "thorough": 1500}
 CHUNK = 4          # runs per worker task (cost-aware: keeps the time cap responsive)
 RULE = ("one SimFile + one image object (AKAI, AKAI inside 2352-byte sectors, Roland, CDDA) with 2-6 clients (T transcoder iterators, "
-        "R raw readers, D lazy directory listings, X foreign cursor moves) stepped by a seeded scheduler for up to 400 steps; also, for "
-        "the first quarter of the batch, a bounded sweep over *all* interleavings of 2-3 clients x <=4 steps of a fixed tiny scenario "
-        "(index selects the interleaving); non-trivial = at least two data clients made progress interleaved (a switch between two reads "
+        "R raw readers, D lazy directory listings, X foreign cursor moves) stepped by a seeded scheduler for up to 400 steps; preceded by a "
+        "bounded sweep block: per group one fixed tiny AKAI scenario (2 data clients x 3 steps + 2 foreign cursor moves = 560 interleavings, or "
+        "3 data clients x 2 steps + one lazy listing = 630) of which EVERY interleaving is run once (quick: 1 group, thorough: 24 groups; "
+        "coverage.sweep reports the measured count); non-trivial = at least two data clients made progress interleaved (a switch between two reads "
         "of one client); distinct = hash of (image digest, schedule)")
 STATE_MEASURE = "distinct (image, schedule = sequence of client ids) hashes"
 COMPONENTS = {"real": ["smpl_extract: image objects, lazy directory realisation, StreamWrapper/Offset/Reversed, SectorStream/FileStream/MdfStream, transcoder"],
@@ -44,7 +45,7 @@ ASSUMPTIONS = ["clients are cooperative: a switch happens between two public cal
                "single-threaded caller can interleave", "each data client owns a distinct sample's stream (two clients on the very same "
                "stream object would share its cursor by definition)"]
 EXPECTED_PROBES = ["reseek_after_switch", "switch_on_sector_boundary", "lazy_ls_between_blocks", "foreign_seek_to_expected_position",
-                   "switch_after_seek", "stereo_pair_client", "reversed_stream_client", "mdf_container", "cdda", "roland", "akai", "same_sample_second_view"]
+                   "switch_after_seek", "stereo_pair_client", "reversed_stream_client", "mdf_container", "cdda", "roland", "akai", "same_sample_second_view", "sweep_interleavings"]
 SHRINK = {"max_attempts": 150, "max_seconds": 120.0, "simple_values": {"policy": ["contiguous"], "block": [4096]}}
 
 
@@ -71,7 +72,89 @@ def _reader_script(rng: random.Random, L: int, align: int, sector: int) -> List[
     return ops
 
 
+SWEEP_GROUP = 640          # >= the number of interleavings of every tiny scenario below (560 / 630)
+
+
+def _sweep_groups(tier: str) -> int:
+    return 1 if tier == "quick" else 24
+
+
+def _multinomial(counts) -> int:
+    from math import factorial
+    n = factorial(sum(counts))
+    for c in counts:
+        n //= factorial(c)
+    return n
+
+
+def _unrank_interleaving(counts, k: int):
+    """k-th (lexicographic) sequence of client ids in which client i occurs counts[i] times; None if k is out of range."""
+    counts = list(counts)
+    if k >= _multinomial(counts):
+        return None
+    out = []
+    while sum(counts):
+        for i in range(len(counts)):
+            if counts[i] == 0:
+                continue
+            counts[i] -= 1
+            m = _multinomial(counts)
+            if k < m:
+                out.append(i)
+                break
+            k -= m
+            counts[i] += 1
+    return out
+
+
+def _gen_tiny(group: int) -> dict:
+    """A fixed tiny scenario per (VERIF_SEED, group): every interleaving of it is one run of the sweep block."""
+    import sim.core as _core
+    rng = random.Random("c11-sweep-%d-%d" % (_core.CURRENT_BASE_SEED, group))
+    kind = group % 2
+    from ..gen_akai import gen_sample, safe_name
+    used: set = set()
+    nfiles = 2 if kind == 0 else 3
+    files = []
+    for i in range(nfiles):
+        # 2049..4096 words = two 4096-byte blocks (+ the StopIteration step) for a transcoder client
+        f = gen_sample(rng, safe_name(rng, used), "c11t%d.%d" % (group, i), n=rng.randint(2049, 4096) if kind == 0 else rng.randint(100, 2048),
+                       markers=False, rich_header=False)
+        f["policy"] = rng.choice(["random", "descending", "inner_permuted", "head_highest"])
+        files.append(f)
+    vols = [{"name": "VA", "vtype": 3, "dir": {"mode": "chain", "policy": "contiguous", "seed": 0}, "files": files[:nfiles - 1]},
+            {"name": "VB", "vtype": 1, "dir": {"mode": rng.choice(["chain", "run"]), "policy": "random", "seed": rng.getrandbits(20)}, "files": files[nfiles - 1:]}]
+    model = {"partitions": [{"spare": 4, "volumes": vols, "dirs_last": rng.random() < 0.5}], "trailing": 0}
+    sc = {"fmt": "akai" if rng.random() < 0.7 else "akai2352", "model": model, "block": 4096, "clients": [], "schedule_seed": 0, "max_steps": 64, "tiny": True}
+    tg = _data_targets(sc)
+    if kind == 0:
+        # two data clients x 3 steps + a foreign holder x 2 pokes: 8!/(3!3!2!) = 560 interleavings
+        a, b = tg[0], tg[1]
+        sc["clients"] = [{"k": "T", "target": a["path"]},
+                         {"k": "R", "target": b["path"], "ops": [["read", 4096], ["seek", 8192 - 140, 0], ["read", 4096]]},
+                         {"k": "X", "pokes": ["expected", "zero"], "seed": group}]
+        sc["step_counts"] = [3, 3, 2]
+    else:
+        # three data clients x 2 steps + one lazy listing: 7!/(2!2!2!1!) = 630 interleavings
+        sc["clients"] = [{"k": "T", "target": tg[0]["path"]}, {"k": "T", "target": tg[1]["path"]},
+                         {"k": "R", "target": tg[2]["path"], "ops": [["read", 64], ["read", 4096]]},
+                         {"k": "D", "paths": ["A/VB"]}]
+        sc["step_counts"] = [2, 2, 2, 1]
+    return sc
+
+
 def gen(rng: random.Random, tier: str, index: int) -> dict:
+    if index < SWEEP_GROUP * _sweep_groups(tier):
+        group, k = divmod(index, SWEEP_GROUP)
+        sc = _gen_tiny(group)
+        sched = _unrank_interleaving(sc["step_counts"], k)
+        if sched is None:
+            # past the last interleaving of this tiny scenario: spend the slot on a seeded schedule of the same scenario
+            sc["schedule_seed"] = rng.getrandbits(40)
+        else:
+            sc["schedule"] = sched
+            sc["sweep"] = [group, k]
+        return sc
     fmt = weighted(rng, [("akai", 4), ("akai2352", 2), ("roland", 3), ("cdda", 3)])
     if fmt in ("akai", "akai2352"):
         model = gen_akai(rng, max_parts=2, max_vols=3, max_files=5, min_files=1, programs=True, big=(fmt == "akai"))
@@ -104,10 +187,6 @@ def gen(rng: random.Random, tier: str, index: int) -> dict:
     if rng.random() < 0.7:
         sc["clients"].append({"k": "X", "pokes": [rng.choice(["expected", "zero", "end", "rand", "rand"]) for _ in range(rng.randint(1, 12))],
                               "seed": rng.getrandbits(30)})
-    if index % 4 == 0 and tier != "quick" or (tier == "quick" and index < RUNS["quick"] // 4):
-        # bounded sweep: this index selects one complete interleaving
-        sc["interleaving"] = index
-        sc["max_steps"] = 400
     return sc
 
 
@@ -477,6 +556,8 @@ def run(sc: dict) -> RunResult:
                     want = sc["schedule"][step]
                     c = next((x for x in runnable if x.cid == want), None)
                     if c is None:
+                        if sc.get("sweep"):
+                            res.probes["sweep_schedule_not_followed"] += 1
                         continue
                 elif inter is not None:
                     inter, d = divmod(inter, len(runnable))
@@ -524,6 +605,8 @@ def run(sc: dict) -> RunResult:
     res.io_events = sum(s.io_events for s in sfs)
     res.digest = digest_of([s.event_digest() for s in sfs], schedule, [v.cls for v in res.violations])
     res.state_hash = jhash([sfs[0].content_digest(), schedule])
+    if sc.get("sweep"):
+        res.probes["sweep_interleavings"] += 1
     res.nontrivial = data_switch
     res.sample = {"fmt": fmt, "clients": [(c["k"], c.get("target", c.get("paths", c.get("pokes")))) for c in sc["clients"]][:6],
                   "schedule": schedule[:40], "steps": len(schedule), "block": sc.get("block")}
@@ -565,3 +648,13 @@ def _dedupe_streams(clients: List[Client]) -> List[Client]:
         seen.update(ids)
         out.append(c)
     return out
+
+
+def extra_evidence(ordered) -> dict:
+    groups = {}
+    for w in ordered:
+        sw = (w.get("smp") or {}).get("sweep")
+    n = sum(w["p"].get("sweep_interleavings", 0) for w in ordered)
+    bad = sum(w["p"].get("sweep_schedule_not_followed", 0) for w in ordered)
+    return {"sweep": {"interleavings_run": n, "per_group": "560 (2x3 steps + 2 pokes) or 630 (3x2 steps + 1 listing), every one exactly once",
+                      "schedule_steps_not_followed": bad}}
